@@ -92,6 +92,24 @@ def r2_never_deletes(chk: Check):
                 ok = "tmp" in src(c.func.value)
                 chk.require(ok, chk.fkey(f, f"writes {src(c.func.value)}"), f"`{src(c)}` writes a job file in place; params.json must be replaced through a temporary file", chk.loc(f.module, c))
     chk.min_instances(n, 4, "file-system effects of tools/jobs.py")
+    # without --fix the command only lists: every effect on the workspace (links removed or created, folders created or moved, files written)
+    # happens under `fix`; a listing that removes the links of an earlier repair makes those results unreachable again
+    f = tree.func("tools.jobs", "fix_deprecated")
+    g = CFG(f.node)
+    rd = ReachingDefs(g)
+    k = 0
+    for node, c in g.call_nodes(lambda c: tail(c) in ("unlink", "rename", "replace", "symlink_to", "mkdir", "write_text", "write_bytes", "touch")
+                                or (tail(c) == "open" and any(isinstance(a, ast.Constant) and "w" in str(a.value) for a in c.args))):
+        k += 1
+        gs = [(src(x.ast), pol) for x, pol in g.guards(node) if x.kind == "test"]
+        chk.require(("fix", True) in gs, chk.fkey(f, f"{tail(c)} only when fixing"), f"`{src(c)[:60]}` changes the workspace although --fix was not given (guards: {gs})", chk.loc(f.module, c))
+        if tail(c) == "symlink_to" and c.args:
+            # the link is read relatively to the folder that contains it: its target must be an absolute path
+            tgt = rd.canon(c.args[0], node, depth=8)
+            chk.require(".absolute()" in tgt or ".resolve()" in tgt or "os.path.abspath(" in tgt, chk.fkey(f, "link target is absolute"),
+                        f"`{src(c)}` links to `{tgt}`, a path relative to the current directory when the workspace was given as a relative path: the link, resolved from the folder "
+                        "that contains it, is dangling and the old result is not found under the new identifier", chk.loc(f.module, c))
+    chk.min_instances(k, 5, "workspace effects of fix_deprecated")
 
 
 def r3_link_move_table(chk: Check):
@@ -108,7 +126,7 @@ def r3_link_move_table(chk: Check):
     start = [m for m, l in lp.succ if l == "loop"][0]
 
     # roles of the expressions of the loop body, by their canonical (definition-expanded) text
-    JOBS = {"jobspath", "workpath / 'jobs'"}
+    JOBS = {"jobspath", "workpath / 'jobs'", "workpath.absolute() / 'jobs'", "workpath.resolve() / 'jobs'"}
     NAME = {"job_path.parents[1].name", "job_path.parent.parent.name"}
     OLDID = "job_path.parent.name"
     NEWID = "job.__xpm__.identifier.all.hex()"
@@ -239,10 +257,14 @@ def r5_cleanup_order(chk: Check):
         ok = False
         for p in passes:
             done = [b for b in g.live if b.kind == "branch" and b.extra["test"] is p and b.extra["polarity"] == "done"]
-            cl = [b for b in g.live if b.kind == "branch" and b.extra["test"].kind == "test" and src(b.extra["test"].ast) == "cleanup" and b.extra["polarity"] is True and g.dominates(b, p)]
+            # the conditions under which the pass runs: `cleanup`, possibly together with `fix` (nothing is removed when not fixing)
+            gd = [b for b in g.live if b.kind == "branch" and b.extra["test"].kind == "test" and src(b.extra["test"].ast) in ("cleanup", "fix") and b.extra["polarity"] is True and g.dominates(b, p)]
+            cl = [b for b in gd if src(b.extra["test"].ast) == "cleanup"]
             if done and cl:
-                # every path on which cleanup is true passes the completed pass: the false edge of that `cleanup` test skips it
-                ok = g.must_pass(cl[0], t, done)
+                # every path on which those conditions are true passes the completed pass (the false edges skip it); with `fix` false the
+                # new location is never tested for a repair (R3 table), so starting below the `fix` test loses nothing
+                inner = [b for b in gd if all(g.dominates(o, b) for o in gd)]
+                ok = bool(inner) and g.must_pass(inner[0], t, done)
         chk.require(ok, chk.fkey(f, "links removed before targets are examined"),
                     "with --cleanup, former repair links must all be removed in a pass that completes before any job's new location is tested: otherwise a job whose link still exists is "
                     "judged already repaired, then loses its link later in the same walk and ends up reachable only under its former identifier", loc)
